@@ -473,7 +473,7 @@ theorem execP_tail_rep (devnull : Option Handle) (a : Int) :
   | some h => exact Rep.call_never rfl fun _ => trivial
   | none => exact trivial
 
-theorem rep_execP (fdin : Option Handle) : Rep (fun rc => rc ≠ 0) (execP fdin) := by
+theorem rep_execP (argv : List Bytes) (fdin : Option Handle) : Rep (fun rc => rc ≠ 0) (execP argv fdin) := by
   unfold execP
   simp only [bind_eq, pure_eq, call_bind]
   refine Rep.bind (EA := fun dn => dn = none) ?_ ?_ ?_
@@ -563,7 +563,7 @@ theorem rep_execOne (env : PEnv) (mh : Match) (st : ExecSt) : Rep (fun r => r.2 
       | none => exact trivial
       | some fd =>
         dsimp only
-        refine Rep.bind (rep_execP fd) ?_ ?_
+        refine Rep.bind (rep_execP _ fd) ?_ ?_
         · intro rc hrc
           cases fd with
           | some h => intro _; show (rc != 0) = true; simpa using hrc
